@@ -343,6 +343,11 @@ func (c *relCtx) c05(t *expr.Expr, ci, di int, class string, info map[string]int
 		c.emit(group{Rel: "same", Obs: []string{r, want}, Info: info})
 	case !hasUnknown && class == "nf":
 		c.emit(group{Rel: "same", Obs: []string{r, "E"}, Info: info})
+	case class == "err" && t.T == "match":
+		// a selector that fails for another reason than an absent key or field (index out of range, step into a scalar or
+		// nil, hidden field) is an error with or without an unknown value
+		info["law"] = "failures other than absence stay errors"
+		c.emit(group{Rel: "same", Obs: []string{r, "E"}, Info: info})
 	case hasUnknown && (class == "absent" || class == "nf"):
 		// exactly as if the selector had resolved to the unknown value: name a key that holds it
 		uk, ok := unknownKey[cfg.Name]
